@@ -1767,6 +1767,16 @@ class Client:
         if len(local_payload) > 268435455:
             raise ValueError('Payload too large.')
 
+        # The whole packet (topic, packet id, properties and payload) must fit
+        # in the largest remaining length MQTT can express.
+        remaining_length = 2 + len(topic_bytes) + len(local_payload)
+        if qos > 0:
+            remaining_length += 2
+        if self._protocol == MQTTv5:
+            remaining_length += 1 if properties is None else len(properties.pack())
+        if remaining_length > 268435455:
+            raise ValueError('Payload too large.')
+
         local_mid = self._mid_generate()
 
         if qos == 0:
@@ -3355,6 +3365,8 @@ class Client:
     def _pack_remaining_length(
         self, packet: bytearray, remaining_length: int
     ) -> bytearray:
+        if remaining_length > 268435455:
+            raise ValueError('Packet too large.')
         remaining_bytes = []
         while True:
             byte = remaining_length % 128
@@ -3366,7 +3378,6 @@ class Client:
             remaining_bytes.append(byte)
             packet.append(byte)
             if remaining_length == 0:
-                # FIXME - this doesn't deal with incorrectly large payloads
                 return packet
 
     def _pack_str16(self, packet: bytearray, data: bytes | str) -> None:
